@@ -10,6 +10,12 @@ CHECKS = {
    text="Generated templates, companions and contexts are loaded, rendered and evaluated as expressions in child processes; every returned error is formatted in all forms. A panic (caught in the worker), a native stack overflow, an abort or a failed allocation larger than the worker's whole address-space limit is a violation attributed to the case that was running and shrunk by re-spawning single-case children. An enumerated grid applies every built-in filter/test/function/loop method to 17 subjects with 0-3 boundary arguments and keyword arguments.",
    note="Three listed findings (deep operator ladders, deeply nested values, block self-recursion) are native stack overflows; they are excluded by construction (ladder length and fuel caps, no self.block() inside blocks) and only their own witnesses are matched. Hangs/oom under the harness limit are counted as inconclusive watchdog hits, not violations.",
    design="3/C01"),
+ "C04": dict(
+   technique="property-based testing: metamorphic relation between an expression over literals and every variant with a subset of its literal leaves hoisted into context variables",
+   level="exploration",
+   text="Generated expressions over the literal syntax (boundary integers, floats, strings, and/or with falsy/truthy operands, comparison chains, in, ~, lists, tuples, maps, negated literals, filters/functions with literal keyword arguments) are rendered as written and with every (sampled beyond 6 leaves) subset of literal leaves replaced by variables bound to the engine's own value for that literal; text and error-ness must agree. `{% if false %}{{ E }}{% endif %}` must load and render empty.",
+   note="Lazy sequence repetitions with astronomically large counts are excluded from the generator (printing them never ends; a hang is not this property's subject).",
+   design="3/C04"),
  "C07": dict(
    technique="property-based testing: law checking (reflexive/antisymmetric/transitive/eq-cmp-hash agreement) over generated value triples biased to same-value-different-representation twins; metamorphic agreement of template operators; algebraic laws of sort/unique/groupby/batch/slice/reverse/min/max over generated inputs with hidden identities; both map implementations",
    level="exploration",
